@@ -43,7 +43,7 @@ Normal(e) ==
 
 Same(o, ents, size) == o.err = "" /\ o.ents = ents /\ o.size = size
 \* after a failed insert / delete the tree, persisted through a clone, still has the shape its recorded height promises
-Consistent(e) == e.pok /\ e.pheight = e.post.height /\ Shape(e.pterm, e.pheight, e.cfg.layers, e.cfg.nk + 1)
+Consistent(e) == e.pok /\ e.pheight = e.post.height /\ WellFormed(e.pterm) /\ Shape(e.pterm, e.pheight, e.cfg.layers, e.cfg.nk + 1)
 
 \* the input classes of the recorded findings, in terms of the trees only (no reliance on the wording of error messages): exactly
 \* the calls in which fallible steps come after the mutation - a delete on a tree of height > 0 goes on to the shrink loop
@@ -80,7 +80,8 @@ C12(e) ==
    version, whatever happened before it.                                                                                   *)
 V9(why) == [p |-> "C09", l |-> l, tr |-> Ev.id, why |-> why, h |-> 0]
 C09(e) ==
-  IF ~(e.res = "err" /\ e.call.op \in {"ins", "del"} /\ e.pok) THEN {} ELSE
+  IF ~(e.res = "err" /\ e.call.op \in {"ins", "del"} /\ e.pok) THEN {}
+  ELSE IF ~WellFormed(e.pterm) THEN {V9("a node persisted after a failed operation does not have as many values as keys and one more child slot")} ELSE
   LET n == Len(Entries(e.pterm))
   IN (IF ~Shape(e.pterm, e.pheight, e.cfg.layers, e.cfg.nk + 1)
       THEN {V9("a version persisted after a failed operation violates the shape invariants at its recorded height")} ELSE {})
